@@ -159,6 +159,8 @@ def run(ctx, tier):
                    "integer line, independent of how the test is written) are the Standard's / RFC 1035's")
     ctx.rule("H8", "the opaque-host parsers refuse forbidden host code points and the domain path refuses forbidden domain code "
                    "points, in both URL types (anchored to the Standard, not to the twin)")
+    ctx.rule("H9", "IPv6 parser: the pieces behind '::' are moved to the end of the address starting from the last one "
+                   "(source and destination ranges overlap)")
     ctx.rule("H4", "IPv6 serializer: the recorded longest zero run is replaced only by a strictly longer one (first longest wins)")
     cfgs = C.configs_for(tier, thorough=["release", "ssse3", "avx512", "devchecks", "amalgamated", "nopattern"])
     fxs = C.load_configs(ctx, cfgs)
@@ -169,6 +171,7 @@ def run(ctx, tier):
         c10_limits.check(ctx, fxs[name], "H7")
         from rules import helpers_spec as HS
         HS.check_required_refusals(ctx, fxs[name], "H8")
+        check_ipv6_move(ctx, fxs[name], "H9")
 
 
 def _subst_pk(e, pname):
@@ -276,6 +279,55 @@ def check_ipv4_number(ctx, fx):
     ctx.check("H5", "only a digit after the leading '0' selects octal", o1 <= DIG, T.fmtset(o1),
               "the octal test also fires for second bytes %s" % T.fmtset(o1 - DIG), where=(ot.get("loc") or where).replace("/repo/", ""))
     ctx.floor("H5", 6, 6, "radix dispatch / digit-set obligations")
+
+
+def check_ipv6_move(ctx, fx, rule):
+    """H9.  After "::" the pieces parsed behind it sit at [compress, compress+n) and belong at [8-n, 8); 8-n >= compress, so
+    the ranges overlap whenever fewer zero pieces are implied than pieces follow, and the copy has to run from the last
+    piece down (the Standard swaps from pieceIndex downwards).  A forward loop overwrites pieces it has not read yet:
+    [fe80::1:2:3:4] becomes [fe80::1:2].  Decided: every loop in parse_ipv6 (both types) whose body copies
+    address[..] = address[..] within the same array counts its induction variable down."""
+    n = 0
+    for q in ("ada::url::parse_ipv6", "ada::url_aggregator::parse_ipv6"):
+        f = fx.fn1(q)
+        found = 0
+        from lib.loops import natural_loops
+        for _head, body, _latches in natural_loops(f):
+            blocks = [b for b in f["blocks"] if b["id"] in body]
+            selfcopy = None
+            steps = []
+            for b in blocks:
+                nodes = [x for s_ in b["stmts"] for x in X.stmt_nodes(s_)]
+                c = C.term_cond(b)
+                if c is not None:
+                    nodes += list(X.walk(c))
+                inc = b.get("term", {}).get("inc")
+                if inc is not None:
+                    nodes += list(X.walk(inc))
+                for x in nodes:
+                    if x.get("k") == "assign" and x.get("op") == "=":
+                        l, r = X.strip(x["lhs"]), X.strip(x["rhs"])
+                        lb = X.show(X.strip(l.get("base") or l.get("recv"))) if isinstance(l, dict) and (l.get("k") == "index" or l.get("op") == "[]") else None
+                        rb = X.show(X.strip(r.get("base") or r.get("recv"))) if isinstance(r, dict) and (r.get("k") == "index" or r.get("op") == "[]") else None
+                        if lb is not None and lb == rb and "address" in lb:
+                            selfcopy = x
+                    if x.get("k") == "un" and x.get("op") in ("++", "--"):
+                        steps.append(x["op"])
+                    if x.get("k") == "assign" and x.get("op") in ("+=", "-="):
+                        steps.append("++" if x["op"] == "+=" else "--")
+            if selfcopy is None:
+                continue
+            found += 1
+            n += 1
+            ctx.check(rule, "%s: overlapping move of the pieces behind '::'" % q.split("::")[1], steps and set(steps) == {"--"},
+                      "`%s` in a loop that counts down" % X.show(selfcopy)[:50],
+                      "the loop around `%s` counts %s: source [compress, compress+n) and destination [8-n, 8) overlap, so copying from "
+                      "the first piece up overwrites pieces that are still to be moved" % (
+                          X.show(selfcopy)[:60], "up" if "++" in steps else "in no recognisable direction"),
+                      where=f["loc"].replace("/repo/", ""))
+        if not found:
+            ctx.broken("%s: the loop moving the pieces behind '::' was not found in %s" % (rule, q))
+    ctx.floor(rule, n, 2, "overlapping piece moves")
 
 
 def check(ctx, fx):
